@@ -1176,6 +1176,9 @@ func cmdC18(args []string) error {
 			if !r.Done && r.Op != 0 {
 				leaked++
 			}
+			if len(r.Deliveries) > 100 {
+				leaked += 6 // endless redelivery: stop early
+			}
 			if r.ReadTO > 0 {
 				leaked += 3 // replies that must come do not come: stop early as well
 			}
